@@ -14,6 +14,7 @@ CONSTANTS Modes,    \* subset of {"route", "repl", "multi"}: the universes enume
           MaxTok,   \* route: tokens per existing partition: 1..MaxTok
           NRepl, NOwnRepl, StatesRepl, AgesRepl,     \* repl: partitions, owners, instance states, heartbeat ages
           NMulti, NOwnMulti, StatesMulti, AgesMulti, \* multi: the same for multi-partition owners
+          IdxMulti, \* multi: numeric suffixes of the instance names (NoIdx = a name without a numeric suffix)
           T         \* heartbeat timeout (s)
 
 Key    == 0..(NK - 1)
@@ -42,12 +43,13 @@ Toks(p)  == {c \in TokPos : own[c] = p}
 Present  == {p \in Pid : Toks(p) # {}}
 TokPid   == [c \in {c \in TokPos : own[c] # 0} |-> own[c]]
 ActSet   == {p \in Present : st[p] = "A"}
+PresentSt == [p \in Present |-> st[p]]
 
 Unknown(o) == [known |-> FALSE, st |-> "LEFT", age |-> 0, zone |-> 0, ro |-> FALSE, idx |-> o]
 Unk == [st |-> "UNK", age |-> 0, zone |-> 0, ro |-> FALSE, idx |-> 0]
 Choice ==      \* what the instance ring may say about a registered owner (Unk: it does not know it)
     (IF Mode = "multi"
-     THEN [st : StatesMulti, age : AgesMulti, zone : {1, 2}, ro : BOOLEAN, idx : {1, 2}]
+     THEN [st : StatesMulti, age : AgesMulti, zone : {1, 2}, ro : BOOLEAN, idx : IdxMulti]
      ELSE [st : StatesRepl, age : AgesRepl, zone : {1, 2}, ro : {FALSE}, idx : {0}]) \cup {Unk}
 InstOf(c, o) == IF c.st = "UNK" THEN Unknown(o)
                 ELSE [known |-> TRUE, st |-> c.st, age |-> c.age, zone |-> c.zone, ro |-> c.ro,
@@ -88,6 +90,17 @@ Spec == Init /\ [][Next]_vars
 (* RoutingTotal on every ring of the universe, every key class.                     *)
 RoutingTotal == (Mode = "route" /\ phase = "case") => RoutingTotalOn(TokPid, ActSet, Key)
 
+(* The snapshot queries partition the ring's ids; the batch view counts the active ones and the    *)
+(* shard size never exceeds them.                                                                   *)
+SnapshotSound ==
+    (Mode = "route" /\ phase = "case") =>
+        /\ UNION {IdsInState(PresentSt, s) : s \in PState} = Present
+        /\ \A s, u \in PState : s # u => IdsInState(PresentSt, s) \cap IdsInState(PresentSt, u) = {}
+        /\ IdsInState(PresentSt, "A") = ActSet
+        /\ BatchInstancesCount(PresentSt) = Cardinality(ActSet)
+        /\ \A size \in -1..(N + 1) : LET z == ShardSize(Cardinality(ActSet), size) IN
+               z <= Cardinality(ActSet) /\ (size \in 1..Cardinality(ActSet) => z = size)
+
 (* Replication sets are exactly the healthy registered owners, and need one.        *)
 Ops == {"Write", "Read", "Reporting"}
 (* ... on EVERY partition ring a PartitionInstanceRing can be built over: the whole ring and any     *)
@@ -123,6 +136,12 @@ EmitRoute ==
         st    |-> [p \in Pid |-> st[p]],
         route |-> [j \in 1..NK |-> ActivePartition(TokPid, ActSet, j - 1)],
         kbpErr |-> kbp.err,
+        kbpEmptyErr |-> KeysByPartition(TokPid, ActSet, << >>).err,
+        ids   |-> [s \in PState |-> IdsInState(PresentSt, s)],
+        all   |-> Present,
+        shard |-> [j \in 1..(N + 3) |-> ShardSize(Cardinality(ActSet), j - 2)],   \* sizes -1 .. N+1
+        batchCount |-> BatchInstancesCount(PresentSt),
+        batchRF |-> BatchReplicationFactor,
         kbp   |-> {[p |-> p, classes |-> {i - 1 : i \in kbp.groups[p]}] : p \in DOMAIN kbp.groups}]))
 
 EmitRepl ==
@@ -131,6 +150,7 @@ EmitRepl ==
         np      |-> N,
         ownerOf |-> [o \in OwnerI |-> ownerOf[o]],
         inst    |-> [o \in OwnerI |-> inst[o]],
+        ownersOf |-> [p \in Pid |-> OwnersOfPartition(ownerOf, p)],
         res     |-> [op \in Ops |->
                       {LET r == ReplicationSets(M, ownerOf, inst, op, T) IN
                        [m |-> M, err |-> r.err,
@@ -145,6 +165,7 @@ EmitMulti ==
         np      |-> N,
         ownerOf |-> [o \in OwnerI |-> ownerOf[o]],
         inst    |-> [o \in OwnerI |-> inst[o]],
+        ownersOf |-> [p \in Pid |-> OwnersOfPartition(ownerOf, p)],
         res     |-> [op \in Ops |->
                       {LET r == MultiReplicationSet(ownerOf, inst, p, op, T) IN
                        [p |-> p, err |-> r.err,
